@@ -27,8 +27,12 @@ ASSUMPTIONS = ['ref/flatten.py is the trusted statement of the flat declaration 
                '500 bodies are compared on their first 40 bytes (they embed object reprs)']
 
 S_REDIRECT, S_REWRITE, S_STRICT = 'redirect', 'rewrite', 'strict'
-MWSETS = {'none': [], 'A': ['A'], 'N': ['N'], 'AB': ['A', 'B'], 'BA': ['B', 'A']}
-UNIQUE = {'A': True, 'B': True, 'N': False}
+MWSETS = {'none': [], 'A': ['A'], 'N': ['N'], 'AB': ['A', 'B'], 'BA': ['B', 'A'], 'At': ['At'], 'AAt': ['A', 'At'],
+          'As': ['As'], 'AsA': ['As', 'A']}
+UNIQUE = {'A': True, 'B': True, 'N': False, 'At': True, 'As': True}
+# At: a different class that happens to carry the same __name__ as A (another package's AuthMiddleware);
+# As: a subclass of A.  Both are types of their own for the merge rule.
+CLASSNAME = {'At': 'A'}
 REQ_PATHS = ['/x', '/x/', '/b', '/b/', '/b//', '/t', '/boom', '/m', '/zz', '/', '/own', '/t9']
 REQ_METHODS = ['GET', 'POST']
 
@@ -119,12 +123,26 @@ def gen_AB2():
                                level(prefix, imw, r1, s1, f1, inh, reb, routes=inner_routes())]
 
 
+def gen_TW():
+    """look-alike middleware types at different levels (same class name, subclass)"""
+    kinds = ['A', 'At', 'AAt', 'As', 'AsA']
+    for depth in (2, 3):
+        for mws in itertools.product(kinds, repeat=depth):
+            if depth == 3 and mws[1] != 'A':
+                continue
+            lv = [level(None, mws[0], {}, S_REDIRECT, 'F0', routes=own_routes(0))]
+            for k in range(1, depth):
+                lv.append(level('/p', mws[k], {}, S_REDIRECT, None,
+                                routes=inner_routes() if k == depth - 1 else own_routes(k)))
+            yield lv
+
+
 def layers(tier):
     if tier == 'quick':
         return [('A2', lambda: gen_A(2)), ('B2', lambda: gen_B(2)), ('A3', lambda: gen_A(3, True)),
-                ('B3', lambda: gen_B(3, True))]
+                ('B3', lambda: gen_B(3, True)), ('TW', gen_TW)]
     return [('A2', lambda: gen_A(2)), ('B2', lambda: gen_B(2)), ('A3', lambda: gen_A(3)), ('B3', lambda: gen_B(3)),
-            ('AB2', gen_AB2)]
+            ('AB2', gen_AB2), ('TW', gen_TW)]
 
 
 class Builder(object):
@@ -146,10 +164,15 @@ class Builder(object):
                         return next()
                     finally:
                         LOG.append('<' + self.tag)
-            _M.__name__ = name
+            _M.__name__ = CLASSNAME.get(name, name)
+            _M.__qualname__ = _M.__name__
             _M.unique = unique
             return _M
-        self.CLS = dict((n, mk(n, u)) for n, u in UNIQUE.items())
+        self.CLS = dict((n, mk(n, u)) for n, u in UNIQUE.items() if n != 'As')
+
+        class As(self.CLS['A']):
+            pass
+        self.CLS['As'] = As
 
         def ep_res(r='noR', s='noS'):
             return Response('res r=%s s=%s' % (r, s))
@@ -284,6 +307,16 @@ def check_tree(acc, b, levels, layer, style='constructor', prebuilt=None):
         acc.violation('C10:flat-construct:%s' % type(e).__name__,
                       'flat declaration rejected (%r) although the nested tree was accepted; %r' % (e, describe(levels)), case)
         return
+    # the flat application is built by clastic too: the merged middleware list of every route is therefore also
+    # compared with the reference's (ref/flatten.py) directly
+    if prebuilt is None:
+        want_rows = [(fr['pattern'], ['%s@%d' % (n, k) for n, k in fr['mws']]) for fr in F.flatten(levels)]
+        got_rows = [(br.pattern, [getattr(m, 'tag', '?') for m in br.middlewares]) for br in nested.routes]
+        if got_rows != want_rows:
+            diff = [(g, w) for g, w in zip(got_rows, want_rows) if g != w][:2]
+            acc.violation('C10:merged-middlewares', 'routes of the nested tree carry %r, the flat declaration says %r (first '
+                          'differences); tree=%r' % ([d[0] for d in diff], [d[1] for d in diff], describe(levels)), case)
+            return
     bases = []
     for k in ((0, len(levels) - 1) if (layer.endswith('3') and tier_is_quick()) else range(len(levels))):
         pf = F.full_prefix(levels, k)
